@@ -48,6 +48,21 @@ def structural(B, fgg, method, spec):
             problems.append(f'{fn}: multiset of terminal edges changed: {used_before} -> {used_after}')
         for r2 in g2.all_rules():
             pass
+        # ---- fresh names against an adversarial label table: a terminal named like the first fresh nonterminal
+        if fn == 'factorize_hrg':
+            before_names = {l.name for l in fgg.edge_labels()}
+            fresh_names = sorted(l.name for l in g2.nonterminals() if l.name not in before_names)
+            if fresh_names:
+                adv = fgg.copy()
+                adv.add_edge_label(fggs.EdgeLabel(fresh_names[0], [], is_terminal=True))
+                try:
+                    g3 = F.factorize_hrg(adv, method=method)
+                    taken = {l.name for l in adv.edge_labels()}
+                    clash = sorted(l.name for l in g3.nonterminals() if l.name in taken and not adv.get_edge_label(l.name).is_nonterminal)
+                    if clash:
+                        problems.append(f'factorize_hrg: fresh nonterminal name(s) {clash} collide with an existing terminal label')
+                except ValueError as ex:
+                    problems.append(f'factorize_hrg: fresh nonterminal name collides with an existing terminal label named {fresh_names[0]!r} (ValueError)')
         if fn == 'factorize_fgg':
             if g2.factors is not fgg.factors and dict(g2.factors) != dict(fgg.factors):
                 problems.append('factorize_fgg: factors changed')
